@@ -1,0 +1,14 @@
+//go:build verif
+
+// Contracts for the deductive checker in /verif (read only with -tags verif).
+// The two overlap tests compare addresses through unsafe.Pointer; their contracts are assumed.
+
+package alias
+
+//@ func AnyOverlap trusted property C03,C04
+//@   ensures result <==> (len(x) > 0 && len(y) > 0 && sameobj(x, y) && offof(x) < offof(y) + len(y) && offof(y) < offof(x) + len(x))
+//@   modifies nothing
+
+//@ func InexactOverlap trusted property C03,C04
+//@   ensures result <==> (len(x) > 0 && len(y) > 0 && sameobj(x, y) && offof(x) != offof(y) && offof(x) < offof(y) + len(y) && offof(y) < offof(x) + len(x))
+//@   modifies nothing
